@@ -147,6 +147,14 @@ Definition epl_packet (cs : list status) (s : ep) : option message :=
                                    (Codec.encode (snd (u_last_acked s)) (map snd (u_pending_output s)))))
   end.
 
+Lemma epl_hd_packet : forall cs s fr, hd_error (u_pending_output s) = Some fr ->
+  epl_packet cs s = Some (mkMsg (u_magic s) (Input cs (pstate_eqb (u_state s) PDisconnected) (fst fr) (last_recv_frame s)
+                                                  (Codec.encode (snd (u_last_acked s)) (map snd (u_pending_output s))))).
+Proof.
+  intros cs s fr H. unfold epl_packet. destruct (u_pending_output s) as [|[f y] r]; cbn in H; [discriminate|].
+  inversion H. reflexivity.
+Qed.
+
 Lemma epl_send_pending_output_packet : forall now cs s t,
   send_pending_output now cs s = Ok t ->
   match epl_packet cs s with
@@ -367,6 +375,14 @@ Definition epl_packet_ok (R : ep) (sent : list ibytes) (m : message) : Prop :=
   | _ => True
   end.
 
+Definition epl_packet_is (R : ep) (sent : list ibytes) (start : Z) (bytes : list N)
+                         (a frames c : list ibytes) (base : list N) : Prop :=
+  sent = a ++ frames ++ c /\ frames <> [] /\
+  (length frames <= N.to_nat PENDING_OUTPUT_SIZE + 1)%nat /\
+  start = f0 + Z.of_nat (length a) /\ bytes = Codec.encode base (map snd frames) /\
+  ((a = [] /\ base = epl_zeros nh) \/
+   (exists pre, a = pre ++ [(start - 1, base)]) /\ start - 1 <= last_recv_frame R).
+
 (* every acknowledgement R ever queued (InputAck, or the ack_frame of an Input packet of the other direction) *)
 Definition epl_ack_value_ok (R : ep) (sent : list ibytes) (r : Z) : Prop :=
   r <= last_recv_frame R /\ (r = NULL \/ exists b, In (r, b) sent).
@@ -458,4 +474,984 @@ Proof.
   split; [|right; reflexivity].
   exists (acked ++ pre ++ [(r, b)]). split; [rewrite Es, Esplit, <- !app_assoc; reflexivity|].
   right. exists (acked ++ pre). rewrite app_assoc. reflexivity.
+Qed.
+
+(* ---------- the receiver handles a packet of the stream ---------- *)
+Lemma epl_step_message : forall now nonce m s s',
+  handle_message dbg now nonce m s = Ok s' -> step dbg (OMessage now nonce m) s = Ok (s', []).
+Proof.
+  intros now nonce m s s' H. unfold step. cbn [step_gen].
+  change (handle_message_gen current_code) with handle_message. rewrite H. reflexivity.
+Qed.
+
+Lemma epl_step_message_inv : forall now nonce m s s' out,
+  step dbg (OMessage now nonce m) s = Ok (s', out) -> handle_message dbg now nonce m s = Ok s' /\ out = [].
+Proof.
+  intros now nonce m s s' out H. eps_unstep H.
+  destruct (handle_message dbg now nonce m s); inversion H; subst. auto.
+Qed.
+
+Lemma epl_wire_size_uniform : forall n (l : list (list N)),
+  Forall (fun i => length i = n) l -> wire_size l = (length l * (2 + n))%nat.
+Proof.
+  induction l as [|x l IH]; intro F; [reflexivity|]. inversion F as [|? ? F1 F2]; subst.
+  cbn [wire_size length]. rewrite (IH F2). lia.
+Qed.
+
+Lemma epl_nth_error_consec : forall frames f j x, epl_consec f frames -> nth_error frames j = Some x ->
+  fst x = f + Z.of_nat j.
+Proof.
+  induction frames as [|y r IH]; intros f j x H Hn; [destruct j; discriminate|]. cbn [epl_consec] in H.
+  destruct H as (H1 & H2). destruct j as [|j]; cbn [nth_error] in Hn.
+  - inversion Hn; subst. lia.
+  - rewrite (IH _ _ _ H2 Hn). lia.
+Qed.
+
+(* what R decodes from a good packet is what S encoded *)
+Lemma epl_decode_packet : forall R sent st dr start ack bytes ref ins m,
+  0 <= f0 -> 4 * Z.of_nat nh <= 65535 ->
+  epl_sent_ok sent -> epl_receiver_ok R sent -> m_body m = Input st dr start ack bytes -> epl_packet_ok R sent m ->
+  alookup (eps_decode_frame R start) (u_recv_inputs R) = Some ref -> Codec.decode dbg ref bytes = Ok ins ->
+  exists a frames c, sent = a ++ frames ++ c /\ start = f0 + Z.of_nat (length a) /\ frames <> [] /\ ins = map snd frames.
+Proof.
+  intros R sent st dr start ack bytes ref ins m H0 Hnh (Hc & Hlen & Hmax) (_ & _ & _ & _ & R1) Hb Hp El Ed.
+  unfold epl_packet_ok in Hp. rewrite Hb in Hp.
+  destruct Hp as (a & frames & c & base & Es & Hne & Hl & Hst & Hby & Hbase).
+  exists a, frames, c. split; [exact Es|]. split; [exact Hst|]. split; [exact Hne|].
+  assert (Hge : forall k b, In (k, b) sent -> f0 <= k).
+  { intros k b X. pose proof (epl_consec_in _ _ _ Hc X). cbn [fst] in *. lia. }
+  assert (Eref : ref = base).
+  { apply eps_alookup_in in El. destruct (R1 _ _ El) as [(Ek & Er)|Hin].
+    - (* the blank entry *)
+      destruct Hbase as [(_ & ->)|((pre & Ea) & Hle)]; [exact Er|]. exfalso.
+      assert (Hin : In (start - 1, base) sent) by (rewrite Es, Ea; apply in_app_iff; left; apply in_app_iff; right; left; reflexivity).
+      specialize (Hge _ _ Hin). unfold eps_decode_frame in Ek.
+      destruct (last_recv_frame R =? NULL) eqn:En; unfold NULL in *; lia.
+    - unfold eps_decode_frame in Hin. destruct (last_recv_frame R =? NULL) eqn:En.
+      + specialize (Hge _ _ Hin). unfold NULL in *. lia.
+      + destruct Hbase as [(-> & _)|((pre & Ea) & Hle)].
+        * specialize (Hge _ _ Hin). cbn [length] in Hst. lia.
+        * assert (Hin2 : In (start - 1, base) sent) by (rewrite Es, Ea; apply in_app_iff; left; apply in_app_iff; right; left; reflexivity).
+          eapply epl_consec_unique; eauto. }
+  subst ref bytes.
+  assert (Hfl : Forall (fun i => length i = (4 * nh)%nat) (map snd frames)).
+  { apply Forall_forall. intros i Hi. apply in_map_iff in Hi. destruct Hi as (x & <- & Hx).
+    rewrite Forall_forall in Hlen. apply Hlen. rewrite Es. apply in_app_iff. right. apply in_app_iff. left. exact Hx. }
+  rewrite (codec_roundtrip eps_cap_ok) in Ed.
+  - inversion Ed. reflexivity.
+  - eapply Forall_impl; [|exact Hfl]. intros i Hi. cbn beta in Hi. lia.
+  - rewrite (epl_wire_size_uniform _ _ Hfl), map_length. unfold MAX_DECODED_LEN, PENDING_OUTPUT_SIZE in *.
+    assert (Hx : Z.of_nat (length frames) * (2 + 4 * Z.of_nat nh) <= 129 * 65537)
+      by (apply Z.mul_le_mono_nonneg; unfold ibytes in *; lia).
+    rewrite Nat2N.inj_mul. apply N2Z.inj_le. rewrite N2Z.inj_mul, !nat_N_Z. rewrite Nat2Z.inj_add, Nat2Z.inj_mul. exact Hx.
+  - rewrite map_length. unfold MAX_DECODED_INPUTS, PENDING_OUTPUT_SIZE, ibytes in *. lia.
+Qed.
+
+Lemma epl_receive_packet : forall R sent m st dr start ack bytes now nonce R',
+  0 <= f0 -> 4 * Z.of_nat nh <= 65535 ->
+  epl_sent_ok sent -> epl_receiver_ok R sent -> m_body m = Input st dr start ack bytes -> epl_packet_ok R sent m ->
+  handle_message dbg now nonce m R = Ok R' ->
+  epl_receiver_ok R' sent /\ last_recv_frame R <= last_recv_frame R' /\
+  (u_send_queue R' = u_send_queue R \/
+   u_send_queue R' = u_send_queue R ++ [mkMsg (u_magic R) (InputAck (last_recv_frame R'))]).
+Proof.
+  intros R sent m st dr start ack bytes now nonce R' H0 Hnh Hsent HR Hb Hp H.
+  pose proof HR as (Hst & Hinv & Hw & Hh & R1).
+  pose proof (eps_input_exits _ _ _ _ _ _ _ _ _ _ _ Hb H) as X.
+  destruct (eps_input_exit_effect _ _ _ _ _ _ _ _ _ X) as (A1&_&_&A4&A5&_).
+  pose proof Hinv as (_ & _ & Hri). specialize (Hri Hw).
+  destruct (eps_input_exit_ri _ _ _ _ _ _ _ _ _ X Hw Hri) as (Hri' & Hmono).
+  split; [|split; [exact Hmono|exact (epl_input_exit_ack _ _ _ _ _ _ _ _ _ X Hri Hw)]].
+  split; [congruence|]. split; [eapply eps_inv_step; [exact Hinv|apply epl_step_message; exact H]|].
+  split; [unfold eps_window_ok in *; rewrite A5; exact Hw|]. split; [congruence|].
+  (* the stored frames *)
+  assert (Hhdr : forall s2, eps_header st dr ack (eps_touch now R) = Ok s2 -> u_recv_inputs s2 = u_recv_inputs R).
+  { intros s2 Eh. destruct (eps_header_touch _ _ _ _ _ _ Eh) as (Ho & _). apply Ho. }
+  assert (Hnew : forall s2 ref ins s4 b, eps_header st dr ack (eps_touch now R) = Ok s2 -> 0 <= start ->
+            alookup (eps_decode_frame s2 start) (u_recv_inputs s2) = Some ref -> Codec.decode dbg ref bytes = Ok ins ->
+            accept_inputs dbg start 0 ins (set_last_input_recv now s2) = Ok (b, s4) ->
+            forall k v, In (k, v) (u_recv_inputs s4) -> (k = NULL /\ v = epl_zeros nh) \/ In (k, v) sent).
+  { intros s2 ref ins s4 b Eh Hs El Ed Ea k v Hin.
+    assert (Hmin : TS_I32_MIN <= start + 0) by (unfold TS_I32_MIN; lia).
+    destruct (eps_accept_spec _ _ _ _ _ _ _ Ea Hmin) as (_ & _ & _ & D & _).
+    destruct (D _ _ Hin) as [Hold|(_ & _ & j & Hj & Hk)].
+    { apply R1. change (u_recv_inputs (set_last_input_recv now s2)) with (u_recv_inputs s2) in Hold.
+      rewrite (Hhdr _ Eh) in Hold. exact Hold. }
+    right. rewrite (Hhdr _ Eh) in El.
+    assert (Edf : eps_decode_frame s2 start = eps_decode_frame R start).
+    { unfold eps_decode_frame. rewrite (eps_last_recv_frame_ext _ _ (Hhdr _ Eh)). reflexivity. }
+    rewrite Edf in El.
+    destruct (epl_decode_packet R sent st dr start ack bytes ref ins m H0 Hnh Hsent HR Hb Hp El Ed)
+      as (a & frames & c & Es & Est & Hne & ->).
+    destruct Hsent as (Hc & _ & Hmax).
+    rewrite nth_error_map in Hj. unfold ibytes in *. destruct (nth_error frames j) as [[kx vx]|] eqn:Ej; [|cbn in Hj; discriminate].
+    cbn in Hj. inversion Hj; subst vx.
+    rewrite Es in Hc. apply epl_consec_app in Hc. destruct Hc as (_ & Hc). apply epl_consec_app in Hc. destruct Hc as (Hc & _).
+    pose proof (epl_nth_error_consec _ _ _ _ Hc Ej) as Ekx. cbn [fst] in Ekx.
+    assert (Hjl : (j < length frames)%nat) by (apply nth_error_Some; rewrite Ej; discriminate).
+    rewrite Es, !app_length in Hmax.
+    rewrite (eps_i32_exact dbg (start + 0 + Z.of_nat j)) in Hk by (unfold TS_I32_MIN; lia).
+    assert (Ek0 : k = start + 0 + Z.of_nat j) by congruence.
+    assert (Ekk : k = kx) by (unfold ibytes in *; lia). rewrite Ekk. clear Ek0 Hk Hin Ekk.
+    rewrite Es. apply in_app_iff. right. apply in_app_iff. left. exact (nth_error_In _ _ Ej). }
+  destruct X as [ | |s2 Eh|s2 Eh|s2 ref Eh|s2 ref ins s4 Eh Hs El Ed Ea|s2 ref ins s4 w lo Eh Hs El Ed Ea Ew Elo].
+  - exact R1.
+  - rewrite (proj1 (proj2 (proj2 (proj2 (proj2 (proj2 (proj2 (proj2 (proj2 (proj2 (proj2 (proj2 (proj2 (proj2 (proj2 (proj2 (proj2 (proj2 (proj2 (proj2 (eps_touch_fields now R))))))))))))))))))))). exact R1.
+  - rewrite (Hhdr _ Eh). exact R1.
+  - fsimpl. rewrite (Hhdr _ Eh). exact R1.
+  - fsimpl. rewrite (Hhdr _ Eh). exact R1.
+  - eapply Hnew; eauto.
+  - fsimpl. intros k v Hin. unfold aretain_ge in Hin. apply filter_In in Hin. destruct Hin as (Hin & _).
+    eapply Hnew; eauto.
+Qed.
+
+(* ---------- anything but an Input packet: recv_inputs untouched, pending_output at most popped ---------- *)
+Lemma epl_other_keeps : forall now nonce m s s',
+  (forall st dr sf af bytes, m_body m <> Input st dr sf af bytes) ->
+  handle_message dbg now nonce m s = Ok s' ->
+  u_recv_inputs s' = u_recv_inputs s /\ u_handles s' = u_handles s /\ u_max_prediction s' = u_max_prediction s /\
+  u_magic s' = u_magic s /\
+  (u_state s' = u_state s \/ (u_state s = PSynchronizing /\ u_state s' = PRunning)) /\
+  ((u_pending_output s', u_last_acked s') = (u_pending_output s, u_last_acked s) \/
+   exists r, m_body m = InputAck r /\
+     (u_pending_output s', u_last_acked s') = pop_pending r (u_pending_output s) (u_last_acked s)).
+Proof.
+  intros now nonce m s s' Hn H. destruct (eps_handle_other_effect _ _ _ _ _ _ Hn H) as (_ & _ & C & D).
+  assert (Hcore : forall t, eps_core t = eps_core s ->
+     u_recv_inputs t = u_recv_inputs s /\ u_handles t = u_handles s /\ u_max_prediction t = u_max_prediction s /\
+     u_magic t = u_magic s /\ (u_pending_output t, u_last_acked t) = (u_pending_output s, u_last_acked s)).
+  { intros t X. eps_core_inj X. repeat split; congruence. }
+  destruct (m_body m) eqn:Eb;
+    try (destruct (Hcore _ D) as (X1 & X2 & X3 & X4 & X5); repeat (split; [assumption|]); left; exact X5).
+  - destruct D as [D|D]; [destruct (Hcore _ D) as (X1 & X2 & X3 & X4 & X5); repeat (split; [assumption|]); left; exact X5|].
+    destruct (eps_pop_pending_output_fields ack_frame s) as (F1&_&_&F4&F5&_&_&F8). eps_core_inj D.
+    assert (Em : u_magic (pop_pending_output ack_frame s) = u_magic s)
+      by (unfold pop_pending_output; destruct (pop_pending _ _ _); reflexivity).
+    repeat (split; [first [congruence | exact C]|]). right. exists ack_frame. split; [reflexivity|]. rewrite C6, C7. exact F1.
+  - destruct D as [D|(t & D1 & D2)]; [destruct (Hcore _ D) as (X1 & X2 & X3 & X4 & X5); repeat (split; [assumption|]); left; exact X5|].
+    destruct (eps_on_checksum_report_effect _ _ _ _ _ D1) as (pcs & -> & _). fsimpl.
+    destruct (Hcore _ D2) as (X1 & X2 & X3 & X4 & X5). repeat (split; [assumption|]). left. exact X5.
+Qed.
+
+(* ---------- the steps of the link ---------- *)
+Inductive epl_step : ep * ep * list ibytes -> ep * ep * list ibytes -> Prop :=
+(* the session hands S the next frame (while S has at most PENDING_OUTPUT_SIZE unacknowledged inputs:
+   the sessions disconnect an endpoint that exceeds it) *)
+| epl_step_send : forall S R sent now inputs cs S' out b,
+    from_inputs (u_num_players S) inputs = Ok (f0 + Z.of_nat (length sent), b) -> length b = (4 * nh)%nat ->
+    f0 + Z.of_nat (length sent) <= TS_I32_MAX ->
+    (length (u_pending_output S) <= N.to_nat PENDING_OUTPUT_SIZE)%nat ->
+    step dbg (OSendInput now inputs cs) S = Ok (S', out) ->
+    epl_step (S, R, sent) (S', R, sent ++ [(f0 + Z.of_nat (length sent), b)])
+(* either endpoint is polled at any time (retry timers, quality reports, keep-alives) *)
+| epl_step_poll_s : forall S R sent now nonce cs S' out,
+    step dbg (OPoll now nonce cs) S = Ok (S', out) -> epl_step (S, R, sent) (S', R, sent)
+| epl_step_poll_r : forall S R sent now nonce cs R' out,
+    step dbg (OPoll now nonce cs) R = Ok (R', out) -> epl_step (S, R, sent) (S, R', sent)
+(* the network delivers any packet ever sent, at any time, any number of times (loss = never) *)
+| epl_step_deliver_sr : forall S R sent now nonce m R' out,
+    In m (u_send_queue S) -> step dbg (OMessage now nonce m) R = Ok (R', out) -> epl_step (S, R, sent) (S, R', sent)
+| epl_step_deliver_rs : forall S R sent now nonce m S' out,
+    In m (u_send_queue R) -> step dbg (OMessage now nonce m) S = Ok (S', out) -> epl_step (S, R, sent) (S', R, sent).
+
+Lemma epl_forall_app_new : forall (P : message -> Prop) s s',
+  Forall P (u_send_queue s) -> epl_app P s s' -> Forall P (u_send_queue s').
+Proof. intros P s s' F (q & E & Fq). rewrite E. apply Forall_app. auto. Qed.
+
+Lemma epl_lrf_value_ok : forall R sent, epl_receiver_ok R sent -> epl_ack_value_ok R sent (last_recv_frame R).
+Proof.
+  intros R sent (_ & (_ & _ & Hri) & Hw & _ & R1). destruct (eps_ri_ok_lrf _ (Hri Hw)) as (_ & K & _).
+  split; [lia|]. unfold eps_keys in K. apply in_map_iff in K. destruct K as ([k b] & Ek & K). cbn in Ek. subst k.
+  destruct (R1 _ _ K) as [(E & _)|E]; [left; exact E|right; eauto].
+Qed.
+
+Theorem epl_inv_step : forall S R sent S' R' sent',
+  epl_inv S R sent -> epl_step (S, R, sent) (S', R', sent') -> epl_inv S' R' sent'.
+Proof.
+  intros S R sent S' R' sent' HI Hstep.
+  pose proof HI as (H0 & Hn1 & Hn2 & Hsent & HS & HR & H3 & M1 & M2).
+  inversion Hstep; subst; clear Hstep.
+  - (* send_input *)
+    match goal with H : step _ (OSendInput _ _ _) _ = _ |- _ => rename H into Hstp end.
+    match goal with H : from_inputs _ _ = _ |- _ => rename H into Hfrom end.
+    match goal with H : length b = _ |- _ => rename H into Hlenb end.
+    eps_unstep Hstp.
+    destruct (send_input now inputs cs S) as [t| |] eqn:E; inversion Hstp; subst; clear Hstp.
+    pose proof HS as (Srun & Slen & acked & Es & Hla).
+    apply eps_send_input_effect in E. destruct E as [(X & _)|(_ & Srun' & data & Ed & Ec & _ & _ & fr & Ehd & Eq)]; [congruence|].
+    rewrite Hfrom in Ed. inversion Ed; subst data. clear Ed. eps_core_inj Ec. fsimpl.
+    set (x := (f0 + Z.of_nat (length sent), b)) in *.
+    assert (Hsent' : epl_sent_ok (sent ++ [x])).
+    { destruct Hsent as (Hc & Hl & Hm). split; [|split].
+      - apply epl_consec_app. split; [exact Hc|]. cbn. auto.
+      - apply Forall_app. split; [exact Hl|]. constructor; [exact Hlenb|constructor].
+      - rewrite app_length. cbn [length]. lia. }
+    assert (HS' : epl_sender_ok S' (sent ++ [x])).
+    { split; [exact Srun'|]. rewrite C6. split; [rewrite app_length; cbn [length]; lia|].
+      exists acked. split; [rewrite Es, app_assoc; reflexivity|]. rewrite C7. exact Hla. }
+    assert (HR' : epl_receiver_ok R' (sent ++ [x])).
+    { destruct HR as (A & B & C & D & R1). repeat (split; [assumption|]). intros k v X.
+      destruct (R1 _ _ X) as [Y|Y]; [left; exact Y|right; apply in_app_iff; left; exact Y]. }
+    split; [exact H0|]. split; [exact Hn1|]. split; [exact Hn2|]. split; [exact Hsent'|]. split; [exact HS'|].
+    split; [exact HR'|]. split; [rewrite C7; exact H3|]. split.
+    + rewrite Eq. apply Forall_app. split.
+      * eapply Forall_impl; [|exact M1]. intros m Hm. eapply epl_packet_ok_mono; [|exact Hm]. lia.
+      * constructor; [|constructor]. apply (epl_current_packet_ok cs S' R' (sent ++ [x])); [exact Hsent'|exact HS'|rewrite C7; exact H3|].
+        rewrite (epl_hd_packet cs S' fr) by (rewrite C6; exact Ehd).
+        rewrite C5, C6, C7, Srun'. cbn [pstate_eqb].
+        assert (last_recv_frame S' = last_recv_frame S) as -> by (apply eps_last_recv_frame_ext; exact C9).
+        reflexivity.
+    + eapply Forall_impl; [|exact M2]. intros m Hm. eapply epl_ack_ok_mono; [|exact Hm]. lia.
+  - (* S polls *)
+    match goal with H : step _ (OPoll _ _ _) _ = _ |- _ => rename H into Hstp end. eps_unstep Hstp.
+    destruct (poll now nonce cs S) as [[evs t]| |] eqn:E; inversion Hstp; subst; clear Hstp.
+    pose proof (epl_poll_messages _ _ _ _ _ _ E) as Hmsg.
+    apply eps_poll_effect in E. destruct E as (Ec & _ & _ & Est & _). eps_core_inj Ec.
+    pose proof HS as (Srun & Slen & acked & Es & Hla).
+    assert (Srun' : u_state S' = PRunning) by (destruct Est as [X|(X & _)]; congruence).
+    split; [exact H0|]. split; [exact Hn1|]. split; [exact Hn2|]. split; [exact Hsent|]. split.
+    { split; [exact Srun'|]. rewrite C6, C7. split; [exact Slen|]. exists acked. auto. }
+    split; [exact HR|]. split; [rewrite C7; exact H3|]. split; [|exact M2].
+    eapply epl_forall_app_new; [exact M1|]. destruct Hmsg as (q & Eq & Fq). exists q. split; [exact Eq|].
+    eapply Forall_impl; [|exact Fq]. intros m [Hm|Hm].
+    + eapply epl_current_packet_ok; eauto.
+    + apply epl_plain_packet_ok. exact Hm.
+  - (* R polls *)
+    match goal with H : step _ (OPoll _ _ _) _ = _ |- _ => rename H into Hstp end. pose proof Hstp as Hstp0. eps_unstep Hstp.
+    destruct (poll now nonce cs R) as [[evs t]| |] eqn:E; inversion Hstp; subst; clear Hstp.
+    pose proof (epl_poll_messages _ _ _ _ _ _ E) as Hmsg.
+    apply eps_poll_effect in E. destruct E as (Ec & _ & _ & Est & _). eps_core_inj Ec.
+    pose proof HR as (Rrun & Rinv & Rw & Rh & R1).
+    assert (Rrun' : u_state R' = PRunning) by (destruct Est as [X|(X & _)]; congruence).
+    assert (Elrf : last_recv_frame R' = last_recv_frame R) by (apply eps_last_recv_frame_ext; exact C9).
+    assert (HR' : epl_receiver_ok R' sent').
+    { split; [exact Rrun'|]. split; [eapply eps_inv_step; eauto|]. split; [unfold eps_window_ok in *; rewrite C3; exact Rw|].
+      split; [congruence|]. rewrite C9. exact R1. }
+    split; [exact H0|]. split; [exact Hn1|]. split; [exact Hn2|]. split; [exact Hsent|]. split; [exact HS|].
+    split; [exact HR'|]. split; [rewrite Elrf; exact H3|]. split.
+    + eapply Forall_impl; [|exact M1]. intros m Hm. rewrite <- (app_nil_r sent'). eapply epl_packet_ok_mono; [|exact Hm]. lia.
+    + assert (M2' : Forall (epl_ack_ok R' sent') (u_send_queue R)).
+      { eapply Forall_impl; [|exact M2]. intros m Hm. rewrite <- (app_nil_r sent'). eapply epl_ack_ok_mono; [|exact Hm]. lia. }
+      destruct Hmsg as (q & Eq & Fq). rewrite Eq. apply Forall_app. split; [exact M2'|].
+      eapply Forall_impl; [|exact Fq]. intros m [Hm|Hm]; [|apply epl_plain_packet_ok; exact Hm].
+      unfold epl_packet in Hm. destruct (u_pending_output R) as [|[f y] r]; [discriminate|]. inversion Hm; subst m.
+      unfold epl_ack_ok. cbn [m_body]. rewrite <- Elrf. apply epl_lrf_value_ok. exact HR'.
+  - (* a packet of S reaches R *)
+    match goal with H : step _ (OMessage _ _ _) _ = _ |- _ => rename H into Hstp end.
+    match goal with H : In _ (u_send_queue _) |- _ => rename H into Hin end.
+    destruct (epl_step_message_inv _ _ _ _ _ _ Hstp) as (H & ->).
+    rewrite Forall_forall in M1. specialize (M1 _ Hin).
+    destruct (eps_input_body_dec m) as [(st & dr & sf & af & bytes & Eb)|Hni].
+    + destruct (epl_receive_packet R sent' m st dr sf af bytes now nonce R' H0 Hn2 Hsent HR Eb M1 H) as (HR' & Hmono & Hq).
+      split; [exact H0|]. split; [exact Hn1|]. split; [exact Hn2|]. split; [exact Hsent|]. split; [exact HS|].
+      split; [exact HR'|]. split; [lia|]. split.
+      * apply Forall_forall. intros x Hx. rewrite <- (app_nil_r sent'). eapply epl_packet_ok_mono; [exact Hmono|].
+        destruct HI as (_&_&_&_&_&_&_&M1'&_). rewrite Forall_forall in M1'. apply M1'. exact Hx.
+      * assert (M2' : Forall (epl_ack_ok R' sent') (u_send_queue R)).
+        { eapply Forall_impl; [|exact M2]. intros y Hy. rewrite <- (app_nil_r sent'). eapply epl_ack_ok_mono; [exact Hmono|exact Hy]. }
+        destruct Hq as [Hq|Hq]; rewrite Hq; [exact M2'|]. apply Forall_app. split; [exact M2'|].
+        constructor; [|constructor]. unfold epl_ack_ok. cbn [m_body]. apply epl_lrf_value_ok. exact HR'.
+    + destruct (epl_other_keeps _ _ _ _ _ Hni H) as (K1 & K2 & K3 & K4 & K5 & _).
+      pose proof HR as (Rrun & Rinv & Rw & Rh & R1).
+      assert (Elrf : last_recv_frame R' = last_recv_frame R) by (apply eps_last_recv_frame_ext; exact K1).
+      assert (HR' : epl_receiver_ok R' sent').
+      { split; [destruct K5 as [X|(X & _)]; congruence|]. split; [eapply eps_inv_step; eauto|].
+        split; [unfold eps_window_ok in *; rewrite K3; exact Rw|]. split; [congruence|]. rewrite K1. exact R1. }
+      split; [exact H0|]. split; [exact Hn1|]. split; [exact Hn2|]. split; [exact Hsent|]. split; [exact HS|].
+      split; [exact HR'|]. split; [rewrite Elrf; exact H3|]. split.
+      * apply Forall_forall. intros x Hx. rewrite <- (app_nil_r sent'). eapply (epl_packet_ok_mono R R'); [rewrite Elrf; lia|].
+        destruct HI as (_&_&_&_&_&_&_&M1'&_). rewrite Forall_forall in M1'. apply M1'. exact Hx.
+      * assert (M2' : Forall (epl_ack_ok R' sent') (u_send_queue R)).
+        { eapply Forall_impl; [|exact M2]. intros y Hy. rewrite <- (app_nil_r sent'). eapply (epl_ack_ok_mono R R'); [rewrite Elrf; lia|exact Hy]. }
+        destruct (epl_other_messages _ _ _ _ _ _ Hni H) as (q & Eq & Fq). rewrite Eq. apply Forall_app. split; [exact M2'|].
+        eapply Forall_impl; [|exact Fq]. intros y Hy. apply epl_plain_packet_ok. exact Hy.
+  - (* a packet of R reaches S *)
+    match goal with H : step _ (OMessage _ _ _) _ = _ |- _ => rename H into Hstp end.
+    match goal with H : In _ (u_send_queue _) |- _ => rename H into Hin end.
+    destruct (epl_step_message_inv _ _ _ _ _ _ Hstp) as (H & ->).
+    rewrite Forall_forall in M2. specialize (M2 _ Hin).
+    pose proof HS as (Srun & Slen & acked & Es & Hla).
+    (* what happens to pending_output / last_acked_input, the state and the send queue *)
+    assert (Hall : u_state S' = PRunning /\
+              ((u_pending_output S', u_last_acked S') = (u_pending_output S, u_last_acked S) \/
+               exists r, epl_ack_value_ok R' sent' r /\
+                 (u_pending_output S', u_last_acked S') = pop_pending r (u_pending_output S) (u_last_acked S)) /\
+              epl_app (fun x => forall st dr sf af bytes, m_body x <> Input st dr sf af bytes) S S').
+    { destruct (eps_input_body_dec m) as [(st & dr & sf & af & bytes & Eb)|Hni].
+      - pose proof (eps_input_exits _ _ _ _ _ _ _ _ _ _ _ Eb H) as X.
+        destruct (eps_input_exit_effect _ _ _ _ _ _ _ _ _ X) as (A1&_&_&_&_&_&_&_&_&_&A11&A12).
+        split; [congruence|]. split.
+        + destruct A11 as [A11|A11]; [left; exact A11|right]. exists af. split; [|exact A11].
+          unfold epl_ack_ok in M2. rewrite Eb in M2. exact M2.
+        + destruct A12 as [A12|(f & A12)]; [apply epl_app_refl; exact A12|].
+          eapply epl_app_one; [exact A12|]. intros; discriminate.
+      - destruct (epl_other_keeps _ _ _ _ _ Hni H) as (_ & _ & _ & _ & K5 & K6).
+        split; [destruct K5 as [X|(X & _)]; congruence|]. split.
+        + destruct K6 as [K6|(r & Eb & K6)]; [left; exact K6|right]. exists r. split; [|exact K6].
+          unfold epl_ack_ok in M2. rewrite Eb in M2. exact M2.
+        + destruct (epl_other_messages _ _ _ _ _ _ Hni H) as (q & Eq & Fq). exists q. split; [exact Eq|].
+          eapply Forall_impl; [|exact Fq]. intros y Hy. cbn beta in Hy. destruct (m_body y); first [(cbn in Hy; discriminate Hy) | (intros; discriminate)]. }
+    destruct Hall as (Srun' & Hpop & Happ).
+    assert (HS' : epl_sender_ok S' sent' /\ fst (u_last_acked S') <= last_recv_frame R').
+    { destruct Hpop as [Hpop|(r & (Hr1 & Hr2) & Hpop)].
+      - inversion Hpop as [[Q1 Q2]]. split; [|rewrite Q2; exact H3]. split; [exact Srun'|]. rewrite Q1, Q2.
+        split; [exact Slen|]. exists acked. auto.
+      - symmetry in Hpop. destruct (epl_sender_pop S sent' r _ _ H0 Hsent HS Hr2 Hpop) as (L & A & B).
+        split; [|destruct B as [->|B]; [exact H3|lia]]. split; [exact Srun'|]. split; [lia|exact A]. }
+    destruct HS' as (HS' & H3').
+    split; [exact H0|]. split; [exact Hn1|]. split; [exact Hn2|]. split; [exact Hsent|]. split; [exact HS'|].
+    split; [exact HR|]. split; [exact H3'|]. split.
+    + destruct Happ as (q & Eq & Fq). rewrite Eq. apply Forall_app. split; [exact M1|].
+      eapply Forall_impl; [|exact Fq]. intros y Hy. unfold epl_packet_ok. destruct (m_body y) eqn:Ey; try exact I.
+      exfalso. cbn beta in Hy. eapply Hy. exact Ey.
+    + destruct HI as (_&_&_&_&_&_&_&_&M2'). exact M2'.
+Qed.
+
+(* ---------- every reachable link state ---------- *)
+Inductive epl_steps : ep * ep * list ibytes -> ep * ep * list ibytes -> Prop :=
+| epl_steps_refl : forall x, epl_steps x x
+| epl_steps_cons : forall x y z, epl_step x y -> epl_steps y z -> epl_steps x z.
+
+Theorem epl_inv_steps : forall x y, epl_steps x y ->
+  epl_inv (fst (fst x)) (snd (fst x)) (snd x) -> epl_inv (fst (fst y)) (snd (fst y)) (snd y).
+Proof.
+  induction 1 as [|[[S R] sent] [[S1 R1] sent1] z Hs _ IH]; intro HI; [exact HI|].
+  apply IH. cbn [fst snd] in *. eapply epl_inv_step; eauto.
+Qed.
+
+(* R always keeps the entry of last_recv_frame (the pruning threshold never exceeds it) *)
+Lemma epl_receiver_keeps_last : forall S R sent, epl_inv S R sent ->
+  exists b, alookup (last_recv_frame R) (u_recv_inputs R) = Some b /\
+    -1 <= last_recv_frame R <= f0 + Z.of_nat (length sent) - 1 /\
+    (last_recv_frame R = NULL \/ In (last_recv_frame R, b) sent).
+Proof.
+  intros S R sent (H0 & _ & _ & (Hc & _ & _) & _ & HR & _).
+  pose proof HR as (_ & (_ & _ & Hri) & Hw & _ & R1). specialize (Hri Hw).
+  destruct (eps_ri_ok_lrf _ Hri) as (L & K & _).
+  unfold eps_keys in K. apply in_map_iff in K. destruct K as ([k b] & Ek & K). cbn in Ek. subst k.
+  exists b. split; [apply eps_alookup_nodup; [apply Hri|exact K]|].
+  destruct (R1 _ _ K) as [(E & _)|E].
+  - split; [rewrite E; unfold NULL; lia|left; exact E].
+  - pose proof (epl_consec_in _ _ _ Hc E) as X. cbn [fst] in X. split; [lia|right; exact E].
+Qed.
+
+(* ---------- a good packet at a good receiver: re-acknowledged or decoded up to its last frame ---------- *)
+Lemma epl_shape_ok : forall bs, length bs = (4 * nh)%nat -> (1 <= nh)%nat -> to_player_inputs nh bs <> None.
+Proof.
+  intros bs Hl Hn. unfold to_player_inputs. destruct nh as [|k] eqn:En; [lia|]. rewrite <- En in *.
+  assert (Em : Z.of_nat (length bs) mod Z.of_nat nh = 0) by (rewrite Hl; replace (Z.of_nat (4 * nh)) with (4 * Z.of_nat nh) by lia; apply Z_mod_mult).
+  rewrite Em. cbn [Z.eqb].
+  assert (Ed : Z.to_nat (Z.of_nat (length bs) / Z.of_nat nh) = 4%nat).
+  { rewrite Hl. replace (Z.of_nat (4 * nh)) with (4 * Z.of_nat nh) by lia. rewrite Z_div_mult by lia. reflexivity. }
+  rewrite Ed. clear Em Ed En k.
+  revert bs Hl. induction nh as [|n IH]; intros bs Hl; cbn [player_values]; [discriminate|].
+  destruct bs as [|b0 [|b1 [|b2 [|b3 rest]]]]; cbn [length] in Hl; try lia.
+  cbn [firstn le_value skipn].
+  destruct n as [|n']; [cbn [player_values]; discriminate|].
+  specialize (IH ltac:(lia) rest ltac:(lia)).
+  destruct (player_values (S n') 4 rest); [discriminate|congruence].
+Qed.
+
+Lemma epl_accept_lrf : forall start ins i s s',
+  accept_inputs dbg start i ins s = Ok (true, s') ->
+  start + i + Z.of_nat (length ins) - 1 <= TS_I32_MAX -> TS_I32_MIN <= start + i -> ins <> [] ->
+  last_recv_frame s' = Z.max (last_recv_frame s) (start + i + Z.of_nat (length ins) - 1).
+Proof.
+  induction ins as [|inp rest IH]; intros i s s' H Hov Hlo Hne; [congruence|].
+  cbn [accept_inputs] in H. cbn [length] in Hov.
+  rewrite (eps_i32_exact dbg (start + i)) in H by lia.
+  assert (Hrest : forall t, accept_inputs dbg start (i + 1) rest t = Ok (true, s') ->
+            last_recv_frame t = Z.max (last_recv_frame s) (start + i) ->
+            last_recv_frame s' = Z.max (last_recv_frame s) (start + i + Z.of_nat (length (inp :: rest)) - 1)).
+  { intros t Ht Lt. destruct rest as [|x rest'].
+    - cbn [accept_inputs] in Ht. inversion Ht; subst. cbn [length]. rewrite Lt. f_equal. lia.
+    - rewrite (IH _ _ _ Ht) by (cbn [length] in *; try lia; discriminate). rewrite Lt. cbn [length]. lia. }
+  destruct (start + i <=? last_recv_frame s) eqn:Ele.
+  - apply (Hrest s H). lia.
+  - apply Z.leb_gt in Ele.
+    destruct (to_player_inputs (length (u_handles s)) inp) as [vals|]; [|discriminate].
+    destruct (input_events (start + i) vals (u_handles s)) as [evs| |]; try discriminate.
+    eapply Hrest; [exact H|]. rewrite eps_lrf_eq. fsimpl. rewrite eps_lrf_ainsert_new; [lia|]. rewrite <- eps_lrf_eq. exact Ele.
+Qed.
+
+Lemma epl_decode_packet_ok : forall R sent start bytes ref a frames c base,
+  0 <= f0 -> 4 * Z.of_nat nh <= 65535 ->
+  epl_sent_ok sent -> epl_receiver_ok R sent -> epl_packet_is R sent start bytes a frames c base ->
+  alookup (eps_decode_frame R start) (u_recv_inputs R) = Some ref ->
+  Codec.decode dbg ref bytes = Ok (map snd frames).
+Proof.
+  intros R sent start bytes ref a frames c base H0 Hnh (Hc & Hlen & Hmax) (_ & _ & _ & _ & R1) Hp El.
+  destruct Hp as (Es & Hne & Hl & Hst & Hby & Hbase).
+  assert (Hge : forall k b, In (k, b) sent -> f0 <= k).
+  { intros k b X. pose proof (epl_consec_in _ _ _ Hc X). cbn [fst] in *. lia. }
+  assert (Eref : ref = base).
+  { apply eps_alookup_in in El. destruct (R1 _ _ El) as [(Ek & Er)|Hin].
+    - destruct Hbase as [(_ & ->)|((pre & Ea) & Hle)]; [exact Er|]. exfalso.
+      assert (Hin : In (start - 1, base) sent) by (rewrite Es, Ea; apply in_app_iff; left; apply in_app_iff; right; left; reflexivity).
+      specialize (Hge _ _ Hin). unfold eps_decode_frame in Ek.
+      destruct (last_recv_frame R =? NULL) eqn:En; unfold NULL in *; lia.
+    - unfold eps_decode_frame in Hin. destruct (last_recv_frame R =? NULL) eqn:En.
+      + specialize (Hge _ _ Hin). unfold NULL in *. lia.
+      + destruct Hbase as [(-> & _)|((pre & Ea) & Hle)].
+        * specialize (Hge _ _ Hin). cbn [length] in Hst. lia.
+        * assert (Hin2 : In (start - 1, base) sent) by (rewrite Es, Ea; apply in_app_iff; left; apply in_app_iff; right; left; reflexivity).
+          eapply epl_consec_unique; eauto. }
+  subst ref bytes.
+  assert (Hfl : Forall (fun i => length i = (4 * nh)%nat) (map snd frames)).
+  { apply Forall_forall. intros i Hi. apply in_map_iff in Hi. destruct Hi as (x & <- & Hx).
+    rewrite Forall_forall in Hlen. apply Hlen. rewrite Es. apply in_app_iff. right. apply in_app_iff. left. exact Hx. }
+  apply (codec_roundtrip eps_cap_ok).
+  - eapply Forall_impl; [|exact Hfl]. intros i Hi. cbn beta in Hi. lia.
+  - rewrite (epl_wire_size_uniform _ _ Hfl), map_length. unfold MAX_DECODED_LEN, PENDING_OUTPUT_SIZE in *.
+    assert (Hx : Z.of_nat (length frames) * (2 + 4 * Z.of_nat nh) <= 129 * 65537)
+      by (apply Z.mul_le_mono_nonneg; unfold ibytes in *; lia).
+    rewrite Nat2N.inj_mul. apply N2Z.inj_le. rewrite N2Z.inj_mul, !nat_N_Z. rewrite Nat2Z.inj_add, Nat2Z.inj_mul. exact Hx.
+  - rewrite map_length. unfold MAX_DECODED_INPUTS, PENDING_OUTPUT_SIZE, ibytes in *. lia.
+Qed.
+
+(* the compatibility of the two configurations that progress (not safety) needs: R accepts S's packets *)
+Definition epl_accepts (R : ep) (m : message) (st : list status) : Prop :=
+  passes_filters R m = true /\ Z.of_nat (length st) = u_num_players R.
+
+Lemma epl_handle_good_packet : forall R sent m st start ack bytes now nonce a frames c base,
+  0 <= f0 -> (1 <= nh)%nat -> 4 * Z.of_nat nh <= 65535 ->
+  epl_sent_ok sent -> epl_receiver_ok R sent -> m_body m = Input st false start ack bytes ->
+  epl_packet_is R sent start bytes a frames c base -> epl_accepts R m st ->
+  exists R1, handle_message dbg now nonce m R = Ok R1 /\
+    ((alookup (start - 1) (u_recv_inputs R) = None /\ 0 <= start <= last_recv_frame R /\
+      u_recv_inputs R1 = u_recv_inputs R /\
+      u_send_queue R1 = u_send_queue R ++ [mkMsg (u_magic R) (InputAck (last_recv_frame R))]) \/
+     (last_recv_frame R1 = Z.max (last_recv_frame R) (start + Z.of_nat (length frames) - 1) /\
+      u_send_queue R1 = u_send_queue R ++ [mkMsg (u_magic R) (InputAck (last_recv_frame R1))])).
+Proof.
+  intros R sent m st start ack bytes now nonce a frames c base H0 Hn1 Hn2 Hsent HR Hb Hp (Hpass & Hcs).
+  pose proof HR as (Rrun & Rinv & Rw & Rh & R1). pose proof Rinv as (Rwf & _ & Rri). specialize (Rri Rw).
+  pose proof Hsent as (Hc & Hlen & Hmax).
+  assert (Hge : forall k b, In (k, b) sent -> f0 <= k <= f0 + Z.of_nat (length sent) - 1).
+  { intros k b X. pose proof (epl_consec_in _ _ _ Hc X). cbn [fst] in *. lia. }
+  destruct (eps_ri_ok_lrf _ Rri) as (L & K & Mx).
+  (* the frames of the packet *)
+  pose proof Hp as (Es & Hne & Hl & Hst & Hby & Hbase).
+  assert (Hs : 0 <= start) by lia.
+  assert (Hend : start + Z.of_nat (length frames) - 1 <= TS_I32_MAX).
+  { rewrite Es, !app_length in Hmax. lia. }
+  rewrite (eps_handle_input_ok_header _ _ _ _ _ _ _ _ _ _ Hb Hpass (or_intror Hcs) Hs).
+  destruct (eps_header_ok_touch now st false ack R Rwf (or_intror Hcs)) as (s2 & Eh). rewrite Eh.
+  destruct (eps_header_touch _ _ _ _ _ _ Eh) as (Ho & _).
+  destruct (eps_header_only_lrf _ _ _ _ _ _ Ho) as (Elrf & Edf).
+  assert (Eri : u_recv_inputs s2 = u_recv_inputs R) by apply Ho.
+  assert (Esq : u_send_queue s2 = u_send_queue R) by apply Ho.
+  assert (Emg : u_magic s2 = u_magic R) by apply Ho.
+  assert (Emp : u_max_prediction s2 = u_max_prediction R) by apply Ho.
+  assert (Ehd : u_handles s2 = u_handles R) by apply Ho.
+  unfold eps_body. cbv zeta. fold (eps_decode_frame s2 start). rewrite Edf, Eri, Elrf.
+  destruct (alookup (eps_decode_frame R start) (u_recv_inputs R)) as [ref|] eqn:El.
+  - (* decoded *)
+    pose proof (epl_decode_packet_ok R sent start bytes ref a frames c base H0 Hn2 Hsent HR Hp El) as Ed.
+    rewrite Ed. set (s3 := set_last_input_recv now s2).
+    assert (Hmin : TS_I32_MIN <= start + 0) by (unfold TS_I32_MIN; lia).
+    destruct (eps_accept_total dbg start (map snd frames) 0 s3) as (bb & s4 & Eacc);
+      [intros _; rewrite map_length; unfold ibytes in *; lia|exact Hmin|].
+    rewrite Eacc.
+    assert (bb = true).
+    { destruct bb; [reflexivity|]. exfalso.
+      destruct (eps_accept_false _ _ _ _ _ _ Eacc) as (pre & bad & post & fr & E1 & E2 & _ & _ & E5).
+      destruct (eps_accept_spec _ _ _ _ _ _ _ E2 Hmin) as (A & _). eps_others_inj A.
+      change (u_handles s3) with (u_handles s2) in O2. rewrite O2, Ehd, Rh in E5.
+      apply (epl_shape_ok bad); [|exact Hn1|exact E5].
+      assert (Hin : In bad (map snd frames)) by (rewrite E1; apply in_app_iff; right; left; reflexivity).
+      apply in_map_iff in Hin. destruct Hin as (x & <- & Hx). rewrite Forall_forall in Hlen. apply Hlen.
+      rewrite Es. apply in_app_iff. right. apply in_app_iff. left. exact Hx. }
+    subst bb.
+    assert (Hok3 : eps_ri_ok s3) by (eapply eps_ri_ok_ext; [|exact Rri]; exact Eri).
+    assert (Hw3 : eps_window_ok s3) by (unfold eps_window_ok in *; change (u_max_prediction s3) with (u_max_prediction s2); rewrite Emp; exact Rw).
+    assert (El3 : alookup (eps_decode_frame s3 start) (u_recv_inputs s3) = Some ref).
+    { change (u_recv_inputs s3) with (u_recv_inputs s2). rewrite Eri.
+      assert (eps_decode_frame s3 start = eps_decode_frame R start) as ->; [|exact El].
+      unfold eps_decode_frame. change (last_recv_frame s3) with (last_recv_frame s2). rewrite Elrf. reflexivity. }
+    change (last_recv_frame (send_input_ack now s4)) with (last_recv_frame s4).
+    change (u_max_prediction (send_input_ack now s4)) with (u_max_prediction s4).
+    change (u_recv_inputs (send_input_ack now s4)) with (u_recv_inputs s4).
+    destruct (eps_accept_spec _ _ _ _ _ _ _ Eacc Hmin) as (A & _). eps_others_inj A.
+    pose proof (eps_accept_ri_ok _ _ _ _ _ _ Eacc Hs Hok3) as Hok4.
+    destruct (eps_ri_ok_lrf _ Hok4) as (L4 & _).
+    change (u_max_prediction s3) with (u_max_prediction s2) in O20.
+    assert (Hw4 : 0 <= u_max_prediction s4 <= EPS_MAX_WINDOW) by (rewrite O20, Emp; exact Rw).
+    unfold EPS_MAX_WINDOW in Hw4.
+    rewrite (eps_wrap_small (u_max_prediction s4)) by (unfold TS_I32_MIN, TS_I32_MAX; lia).
+    rewrite (eps_i32_exact dbg (2 * u_max_prediction s4)) by (unfold TS_I32_MIN, TS_I32_MAX; lia).
+    rewrite (eps_i32_exact dbg (last_recv_frame s4 - 2 * u_max_prediction s4)) by (unfold TS_I32_MIN, TS_I32_MAX in *; lia).
+    eexists. split; [reflexivity|]. right.
+    destruct (eps_complete_exit_ri dbg now start (map snd frames) s3 s4 (2 * u_max_prediction s4)
+                (last_recv_frame s4 - 2 * u_max_prediction s4) ref Hok3 Hw3 Hs El3 Eacc) as (_ & B & _).
+    { rewrite (eps_wrap_small (u_max_prediction s4)) by (unfold TS_I32_MIN, TS_I32_MAX; lia).
+      apply eps_i32_exact. unfold TS_I32_MIN, TS_I32_MAX; lia. }
+    { apply eps_i32_exact. unfold TS_I32_MIN, TS_I32_MAX in *; lia. }
+    cbv zeta in B. rewrite B. split.
+    + assert (Elr : last_recv_frame s4 = Z.max (last_recv_frame s3) (start + 0 + Z.of_nat (length (map snd frames)) - 1)).
+      { apply (epl_accept_lrf start (map snd frames) 0 s3 s4 Eacc).
+        - rewrite map_length. unfold ibytes in *. lia.
+        - exact Hmin.
+        - destruct frames; [congruence|discriminate]. }
+      rewrite Elr, map_length. change (last_recv_frame s3) with (last_recv_frame s2). rewrite Elrf, Z.add_0_r. reflexivity.
+    + fsimpl. rewrite O3, O15. change (u_send_queue s3) with (u_send_queue s2). change (u_magic s3) with (u_magic s2).
+      rewrite Esq, Emg. reflexivity.
+  - (* the base is gone: the packet is stale, re-acknowledge *)
+    assert (Hstale : start <= last_recv_frame R /\ alookup (start - 1) (u_recv_inputs R) = None).
+    { unfold eps_decode_frame in El. destruct (last_recv_frame R =? NULL) eqn:En.
+      - (* nothing received yet: the blank entry is there *)
+        exfalso. apply Z.eqb_eq in En. rewrite En in K. apply eps_alookup_none in El. contradiction.
+      - split; [|exact El]. apply Z.eqb_neq in En.
+        destruct Hbase as [(-> & _)|((pre & Ea) & Hle)].
+        + (* a packet from the very beginning: last_recv_frame is a frame of the stream *)
+          cbn [length] in Hst. unfold eps_keys in K. apply in_map_iff in K. destruct K as ([k b] & Ek & K). cbn in Ek.
+          destruct (R1 _ _ K) as [(E & _)|E]; [congruence|]. specialize (Hge _ _ E). lia.
+        + destruct (Z.eq_dec (start - 1) (last_recv_frame R)) as [Eq|Nq]; [|lia].
+          exfalso. rewrite <- Eq in K. apply eps_alookup_none in El. contradiction. }
+    destruct Hstale as (Hle & Hnone).
+    assert ((start <=? last_recv_frame R) = true) as -> by lia.
+    eexists. split; [reflexivity|]. left. split; [exact Hnone|]. split; [lia|]. fsimpl. split; [exact Eri|]. rewrite Esq, Emg, Elrf. reflexivity.
+Qed.
+
+(* ---------- the exchange: retransmission, answer, next packet ---------- *)
+Lemma epl_current_packet_is : forall cs S R sent m,
+  epl_sent_ok sent -> epl_sender_ok S sent -> fst (u_last_acked S) <= last_recv_frame R ->
+  epl_packet cs S = Some m ->
+  exists start bytes acked, m = mkMsg (u_magic S) (Input cs false start (last_recv_frame S) bytes) /\
+    sent = acked ++ u_pending_output S /\ u_pending_output S <> [] /\
+    epl_packet_is R sent start bytes acked (u_pending_output S) [] (snd (u_last_acked S)).
+Proof.
+  intros cs S R sent m (Hc & _ & _) (Srun & Hlen & acked & Es & Hla) Hle Hp. unfold epl_packet in Hp.
+  destruct (u_pending_output S) as [|[f x] r] eqn:Epo; [discriminate|]. inversion Hp; subst m. clear Hp.
+  rewrite Srun. cbn [pstate_eqb].
+  exists f, (Codec.encode (snd (u_last_acked S)) (map snd ((f, x) :: r))), acked.
+  split; [reflexivity|]. split; [exact Es|]. split; [discriminate|].
+  rewrite Es in Hc. apply epl_consec_app in Hc. destruct Hc as (Hc1 & Hc2). cbn [epl_consec fst] in Hc2.
+  unfold epl_packet_is. rewrite app_nil_r.
+  split; [exact Es|]. split; [discriminate|]. split; [exact Hlen|]. split; [tauto|]. split; [reflexivity|].
+  destruct Hla as [(-> & Ela)|(pre & Ea)].
+  - left. rewrite Ela. auto.
+  - right. subst acked. pose proof (epl_consec_length_fst _ _ _ Hc1) as Ef. rewrite app_length in Hc2. cbn [length] in Hc2.
+    assert (E : f - 1 = fst (u_last_acked S)) by lia. split; [|lia].
+    exists pre. rewrite E. destruct (u_last_acked S); reflexivity.
+Qed.
+
+Lemma epl_passes_running : forall X m, u_state X = PRunning ->
+  (u_remote_magic X = 0 \/ u_remote_magic X = m_magic m) -> passes_filters X m = true.
+Proof.
+  intros X m Hr Hm. unfold passes_filters. rewrite Hr. cbn [pstate_eqb negb andb orb].
+  destruct Hm as [-> | ->]; [reflexivity|]. rewrite Z.eqb_refl. cbn [negb andb]. rewrite andb_false_r. reflexivity.
+Qed.
+
+(* the configurations fit: each side accepts the other's packets (magic numbers), and S is polled with as many
+   connection statuses as R expects *)
+Definition epl_compat (S R : ep) (cs : list status) : Prop :=
+  (u_remote_magic R = 0 \/ u_remote_magic R = u_magic S) /\
+  (u_remote_magic S = 0 \/ u_remote_magic S = u_magic R) /\
+  Z.of_nat (length cs) = u_num_players R.
+
+(* what R queued while handling one packet *)
+Definition epl_reply (R R1 : ep) : option message := nth_error (u_send_queue R1) (length (u_send_queue R)).
+
+(* S's current packet reaches R; R's answer (if any) reaches S; S's next packet (if any) reaches R *)
+Definition epl_exchange (t1 t2 t3 : Z) (cs : list status) (S R : ep) : res (ep * ep) :=
+  match epl_packet cs S with
+  | None => Ok (S, R)
+  | Some P =>
+    match handle_message dbg t1 0 P R with
+    | Ok R1 =>
+      match (match epl_reply R R1 with Some A => handle_message dbg t2 0 A S | None => Ok S end) with
+      | Ok S1 =>
+        match epl_packet cs S1 with
+        | None => Ok (S1, R1)
+        | Some P' =>
+          match handle_message dbg t3 0 P' R1 with Ok R2 => Ok (S1, R2) | Err => Err | Panic => Panic end
+        end
+      | Err => Err
+      | Panic => Panic
+      end
+    | Err => Err
+    | Panic => Panic
+    end
+  end.
+
+Lemma epl_last_frame : forall sent acked po, epl_consec f0 sent -> sent = acked ++ po -> po <> [] ->
+  exists pre b, po = pre ++ [(f0 + Z.of_nat (length sent) - 1, b)].
+Proof.
+  intros sent acked po Hc Es Hne. destruct (exists_last Hne) as (pre & [k b] & Ep). exists pre, b. rewrite Ep. repeat f_equal.
+  rewrite Es, Ep, app_assoc in Hc. pose proof (epl_consec_length_fst _ _ _ Hc) as E. cbn [fst] in E.
+  rewrite Es, Ep, !app_length. cbn [length]. rewrite app_length in E. lia.
+Qed.
+
+Lemma epl_handle_ack : forall now nonce X r mg,
+  passes_filters X (mkMsg mg (InputAck r)) = true ->
+  exists X1, handle_message dbg now nonce (mkMsg mg (InputAck r)) X = Ok X1 /\
+    (u_pending_output X1, u_last_acked X1) = pop_pending r (u_pending_output X) (u_last_acked X) /\
+    u_state X1 = u_state X /\ u_magic X1 = u_magic X /\ u_recv_inputs X1 = u_recv_inputs X /\
+    u_remote_magic X1 = u_remote_magic X.
+Proof.
+  intros now nonce X r mg Hp. rewrite eps_handle_unfold, Hp. cbn [negb m_body]. cbv zeta.
+  eexists. split; [reflexivity|].
+  pose proof (eps_touch_fields now X) as T. unfold eps_only_touched in T.
+  destruct T as (T1&T2&T3&T4&T5&T6&T7&T8&T9&T10&T11&T12&T13&T14&T15&T16&T17&T18&T19&T20&_).
+  destruct (eps_pop_pending_output_fields r (eps_touch now X)) as (F1 & _ & _ & F4 & _).
+  rewrite T17, T18 in F1. split; [exact F1|].
+  assert (G : forall Y, u_state (pop_pending_output r Y) = u_state Y /\ u_magic (pop_pending_output r Y) = u_magic Y /\
+                        u_recv_inputs (pop_pending_output r Y) = u_recv_inputs Y /\
+                        u_remote_magic (pop_pending_output r Y) = u_remote_magic Y)
+    by (intro Y; unfold pop_pending_output; destruct (pop_pending r (u_pending_output Y) (u_last_acked Y)); fsimpl; repeat split).
+  destruct (G (eps_touch now X)) as (G1 & G2 & G3 & G4). rewrite G1, G2, G3, G4, T4, T14, T20, T15. auto.
+Qed.
+
+Theorem epl_exchange_reaches_newest : forall S R sent cs t1 t2 t3,
+  epl_inv S R sent -> epl_compat S R cs -> u_pending_output S <> [] ->
+  exists S1 R2, epl_exchange t1 t2 t3 cs S R = Ok (S1, R2) /\
+    last_recv_frame R2 = f0 + Z.of_nat (length sent) - 1.
+Proof.
+  intros S R sent cs t1 t2 t3 HI (Cm1 & Cm2 & Ccs) Hpo.
+  pose proof HI as (H0 & Hn1 & Hn2 & Hsent & HS & HR & H3 & M1 & M2).
+  pose proof HS as (Srun & Slen & acked0 & Es0 & Hla0). pose proof HR as (Rrun & Rinv & Rw & Rh & R1).
+  pose proof Hsent as (Hc & Hlen & Hmax).
+  unfold epl_exchange.
+  destruct (epl_packet cs S) as [P|] eqn:EP.
+  2:{ unfold epl_packet in EP. destruct (u_pending_output S) as [|[f x] r]; [congruence|discriminate]. }
+  destruct (epl_current_packet_is cs S R sent P Hsent HS H3 EP) as (start & bytes & acked & -> & Es & _ & Pis).
+  assert (Pok : epl_packet_ok R sent (mkMsg (u_magic S) (Input cs false start (last_recv_frame S) bytes))).
+  { unfold epl_packet_ok. cbn [m_body]. exists acked, (u_pending_output S), [], (snd (u_last_acked S)). exact Pis. }
+  assert (Pacc : epl_accepts R (mkMsg (u_magic S) (Input cs false start (last_recv_frame S) bytes)) cs).
+  { split; [apply epl_passes_running; [exact Rrun|exact Cm1]|exact Ccs]. }
+  set (P := mkMsg (u_magic S) (Input cs false start (last_recv_frame S) bytes)) in *.
+  destruct (epl_handle_good_packet R sent P cs start (last_recv_frame S) bytes t1 0 acked (u_pending_output S) [] _
+              H0 Hn1 Hn2 Hsent HR eq_refl Pis Pacc) as (R1' & EH & Hcase).
+  rewrite EH.
+  destruct (epl_receive_packet R sent P cs false start (last_recv_frame S) bytes t1 0 R1' H0 Hn2 Hsent HR eq_refl Pok EH)
+    as (HR1 & Hmono & _).
+  pose proof Pis as (_ & _ & _ & Hst & _).
+  (* the newest frame is the last entry of pending_output *)
+  destruct (epl_last_frame sent acked (u_pending_output S) Hc Es Hpo) as (pre & bn & Epo).
+  set (newest := f0 + Z.of_nat (length sent) - 1) in *.
+  assert (Hend : start + Z.of_nat (length (u_pending_output S)) - 1 = newest).
+  { subst newest. rewrite Es, app_length. lia. }
+  assert (Hlrf_le : last_recv_frame R <= newest).
+  { destruct (epl_receiver_keeps_last S R sent HI) as (_ & _ & X & _). exact (proj2 X). }
+  assert (HpassS : forall r, passes_filters S (mkMsg (u_magic R) (InputAck r)) = true).
+  { intro r. apply epl_passes_running; [exact Srun|exact Cm2]. }
+  destruct Hcase as [(Hnone & Hrange & Eri & Esq)|(Elrf1 & Esq)].
+  - (* stale base: R re-acknowledges last_recv_frame(R) =: r *)
+    set (r := last_recv_frame R) in *.
+    assert (Erep : epl_reply R R1' = Some (mkMsg (u_magic R) (InputAck r))).
+    { unfold epl_reply. rewrite Esq, nth_error_app2, Nat.sub_diag by lia. reflexivity. }
+    rewrite Erep.
+    destruct (epl_handle_ack t2 0 S r (u_magic R) (HpassS r)) as (S1 & ES1 & Epop & Est1 & Emg1 & Eri1 & Erm1).
+    rewrite ES1.
+    (* r is a pending frame *)
+    destruct (epl_receiver_keeps_last S R sent HI) as (br & _ & _ & Hin).
+    destruct Hin as [Hin|Hin]; [unfold NULL in *; fold r in Hin; lia|]. fold r in Hin.
+    rewrite Es in Hin. apply in_app_iff in Hin. destruct Hin as [Hin|Hin].
+    { rewrite Es in Hc. apply epl_consec_app in Hc. destruct Hc as (Hc1 & _).
+      pose proof (epl_consec_in _ _ _ Hc1 Hin) as X. cbn [fst] in X. lia. }
+    apply in_split in Hin. destruct Hin as (p1 & post & Esplit).
+    assert (Hcpo : epl_consec start (u_pending_output S)).
+    { rewrite Es in Hc. apply epl_consec_app in Hc. destruct Hc as (_ & Hc2). rewrite Hst. exact Hc2. }
+    rewrite Esplit in Epop, Hcpo. rewrite (epl_pop_consec _ p1 r br post _ Hcpo) in Epop. inversion Epop as [[Q1 Q2]].
+    assert (Elrf1 : last_recv_frame R1' = r) by (apply eps_last_recv_frame_ext; exact Eri).
+    destruct post as [|[f1 x1] post'] eqn:Epost.
+    + (* r was the newest frame *)
+      unfold epl_packet. rewrite Q1. eexists. eexists. split; [reflexivity|]. rewrite Elrf1.
+      rewrite Esplit, app_length in Hend. cbn [length] in Hend.
+      apply epl_consec_app in Hcpo. destruct Hcpo as (_ & Hcpo). cbn [epl_consec fst] in Hcpo. lia.
+    + (* S's next packet starts at r + 1, encoded against the bytes of r, which R still keeps *)
+      assert (HS1 : epl_sender_ok S1 sent).
+      { split; [congruence|]. rewrite Q1, Q2. split; [rewrite Esplit, app_length in Slen; cbn [length] in *; lia|].
+        exists (acked ++ p1 ++ [(r, br)]). split; [rewrite Es, Esplit, <- !app_assoc; reflexivity|].
+        right. exists (acked ++ p1). rewrite app_assoc. reflexivity. }
+      assert (H31 : fst (u_last_acked S1) <= last_recv_frame R1') by (rewrite Q2, Elrf1; cbn [fst]; lia).
+      destruct (epl_packet cs S1) as [P'|] eqn:EP'.
+      2:{ unfold epl_packet in EP'. rewrite Q1 in EP'. discriminate. }
+      destruct (epl_current_packet_is cs S1 R1' sent P' Hsent HS1 H31 EP') as (start' & bytes' & acked' & -> & Es' & _ & Pis').
+      assert (Pacc' : epl_accepts R1' (mkMsg (u_magic S1) (Input cs false start' (last_recv_frame S1) bytes')) cs).
+      { destruct HR1 as (Rrun1 & _). split.
+        - apply epl_passes_running; [exact Rrun1|]. cbn [m_magic]. rewrite Emg1.
+          assert (u_remote_magic R1' = u_remote_magic R) as ->; [|exact Cm1].
+          pose proof (eps_input_exits dbg t1 0 P cs false start (last_recv_frame S) bytes R R1' eq_refl EH) as X.
+          destruct (eps_input_exit_effect _ _ _ _ _ _ _ _ _ X) as (_&_&_&_&_&_&_&A8&_). exact A8.
+        - pose proof (eps_input_exits dbg t1 0 P cs false start (last_recv_frame S) bytes R R1' eq_refl EH) as X.
+          destruct (eps_input_exit_effect _ _ _ _ _ _ _ _ _ X) as (_&_&A3&_). rewrite A3. exact Ccs. }
+      set (P' := mkMsg (u_magic S1) (Input cs false start' (last_recv_frame S1) bytes')) in *.
+      destruct (epl_handle_good_packet R1' sent P' cs start' (last_recv_frame S1) bytes' t3 0 acked' (u_pending_output S1) [] _
+                  H0 Hn1 Hn2 Hsent HR1 eq_refl Pis' Pacc') as (R2 & EH2 & Hcase2).
+      rewrite EH2. exists S1, R2. split; [reflexivity|].
+      pose proof Pis' as (_ & _ & _ & Hst' & _).
+      assert (Hst2 : start' = r + 1).
+      { rewrite Q1 in Es'. assert (Hl : length acked' = length (acked ++ p1 ++ [(r, br)])).
+        { apply (f_equal (@length _)) in Es'. rewrite Es, Esplit, !app_length in Es'. rewrite !app_length. cbn [length] in *. lia. }
+        rewrite Hst', Hl, !app_length. cbn [length].
+        apply epl_consec_app in Hcpo. destruct Hcpo as (_ & Hcpo). cbn [epl_consec fst] in Hcpo. lia. }
+      assert (Hend2 : start' + Z.of_nat (length (u_pending_output S1)) - 1 = newest).
+      { rewrite Q1, Hst2. rewrite Esplit, app_length in Hend. cbn [length] in *.
+        apply epl_consec_app in Hcpo. destruct Hcpo as (_ & Hcpo). cbn [epl_consec fst] in Hcpo. lia. }
+      destruct Hcase2 as [(Hnone2 & _)|(Elrf2 & _)].
+      * (* impossible: r = last_recv_frame(R1) is a key of recv_inputs(R1) *)
+        exfalso. rewrite Hst2 in Hnone2. replace (r + 1 - 1) with r in Hnone2 by lia.
+        pose proof HR1 as (_ & (_ & _ & Hri1) & Hw1 & _). destruct (eps_ri_ok_lrf _ (Hri1 Hw1)) as (_ & K1 & _).
+        rewrite Elrf1 in K1. apply eps_alookup_none in Hnone2. contradiction.
+      * rewrite Elrf2, Hend2, Elrf1. lia.
+  - (* decoded at once: R has everything up to the newest frame and says so *)
+    assert (Elrf : last_recv_frame R1' = newest) by (rewrite Elrf1, Hend; lia).
+    assert (Erep : epl_reply R R1' = Some (mkMsg (u_magic R) (InputAck newest))).
+    { unfold epl_reply. rewrite Esq, nth_error_app2, Nat.sub_diag by lia. cbn [nth_error]. rewrite Elrf. reflexivity. }
+    rewrite Erep.
+    destruct (epl_handle_ack t2 0 S newest (u_magic R) (HpassS newest)) as (S1 & ES1 & Epop & _).
+    rewrite ES1.
+    assert (Hcpo : epl_consec start (u_pending_output S)).
+    { rewrite Es in Hc. apply epl_consec_app in Hc. destruct Hc as (_ & Hc2). rewrite Hst. exact Hc2. }
+    rewrite Epo in Epop, Hcpo. rewrite (epl_pop_consec _ pre newest bn [] _ Hcpo) in Epop. inversion Epop as [[Q1 Q2]].
+    unfold epl_packet. rewrite Q1. exists S1, R1'. split; [reflexivity|exact Elrf].
+Qed.
+
+(* S's retry timer: a poll more than RUNNING_RETRY_INTERVAL after the last input packet was sent or received
+   queues the current packet again *)
+Lemma epl_retry_fires : forall now nonce cs S out S' P,
+  u_state S = PRunning -> u_last_input_recv S + RUNNING_RETRY_INTERVAL < now ->
+  poll now nonce cs S = Ok (out, S') -> epl_packet cs S = Some P ->
+  In P (u_send_queue S') /\ epl_packet cs S' = Some P.
+Proof.
+  intros now nonce cs S out S' P Hr Hdue H EP. split.
+  - unfold poll, poll_gen in H. cbv zeta in H. rewrite Hr in H.
+    unfold poll_running_gen in H. cbn [fix_quiet_dead current_code] in H. cbv zeta in H.
+    assert ((u_last_input_recv S + RUNNING_RETRY_INTERVAL <? now) = true) as E0 by lia. rewrite E0 in H.
+    destruct (send_pending_output now cs S) as [t| |] eqn:Et; try discriminate.
+    apply epl_send_pending_output_packet in Et. rewrite EP in Et. destruct Et as (Q & _).
+    set (s1 := set_last_input_recv now t) in *.
+    assert (A1 : In P (u_send_queue s1)) by (subst s1; fsimpl; rewrite Q; apply in_app_iff; right; left; reflexivity).
+    clearbody s1.
+    match type of H with match match ?X with _ => _ end with _ => _ end = _ => destruct X as [s2| |] eqn:E2; try discriminate end.
+    assert (A2 : In P (u_send_queue s2)).
+    { destruct (u_last_quality_report s1 + QUALITY_REPORT_INTERVAL <? now).
+      - unfold send_quality_report in E2. cbv zeta in E2.
+        destruct (ts_report_frame_advantage _) as [adv| |]; try discriminate. inversion E2; subst s2. fsimpl.
+        apply in_app_iff. left. exact A1.
+      - inversion E2; subst. exact A1. }
+    set (s3 := if u_last_send_time s2 + KEEP_ALIVE_INTERVAL <? now then send_keep_alive now s2 else s2) in *.
+    assert (A3 : In P (u_send_queue s3)).
+    { subst s3. destruct (u_last_send_time s2 + KEEP_ALIVE_INTERVAL <? now); [fsimpl; apply in_app_iff; left|]; exact A2. }
+    clearbody s3. inversion H; subst S'.
+    destruct (negb (u_notify_sent s3) && negb (u_event_sent s3) && (u_last_recv_time s3 + u_notify_start s3 <? now));
+      fsimpl; destruct (negb (u_event_sent _) && _); fsimpl; exact A3.
+  - apply eps_poll_effect in H. destruct H as (Ec & _ & _ & Est & _). eps_core_inj Ec.
+    rewrite <- EP. unfold epl_packet. rewrite C6, C7, C5.
+    assert (last_recv_frame S' = last_recv_frame S) as -> by (apply eps_last_recv_frame_ext; exact C9).
+    destruct Est as [-> |(X & _)]; [reflexivity|congruence].
+Qed.
+
+(* ---------- where the link starts ---------- *)
+Lemma epl_inv_initial : forall S R,
+  0 <= f0 -> (1 <= nh)%nat -> 4 * Z.of_nat nh <= 65535 -> f0 - 1 <= TS_I32_MAX ->
+  u_state S = PRunning -> u_pending_output S = [] -> u_last_acked S = (NULL, epl_zeros nh) ->
+  u_state R = PRunning -> eps_inv R -> eps_window_ok R -> length (u_handles R) = nh ->
+  u_recv_inputs R = [(NULL, epl_zeros nh)] ->
+  Forall (fun m => epl_plain (m_body m) = true) (u_send_queue S) ->
+  Forall (fun m => epl_plain (m_body m) = true) (u_send_queue R) ->
+  epl_inv S R [].
+Proof.
+  intros S R H0 Hn1 Hn2 Hm Srun Spo Sla Rrun Rinv Rw Rh Rri FS FR.
+  split; [exact H0|]. split; [exact Hn1|]. split; [exact Hn2|]. split.
+  { split; [exact I|]. split; [constructor|]. cbn [length]. lia. }
+  split. { split; [exact Srun|]. rewrite Spo. split; [cbn; lia|]. exists []. split; [reflexivity|]. left. auto. }
+  split. { split; [exact Rrun|]. split; [exact Rinv|]. split; [exact Rw|]. split; [exact Rh|].
+           rewrite Rri. intros k b [X|[]]. inversion X; subst. left. auto. }
+  split. { rewrite Sla, eps_lrf_eq, Rri. cbn. lia. }
+  split; (eapply Forall_impl; [|eassumption]); intros m Hp; apply epl_plain_packet_ok; exact Hp.
+Qed.
+
+End Link.
+
+(* ====================================================================================== *)
+(* (d) the handshake makes progress                                                        *)
+(* ====================================================================================== *)
+Lemma epl_sync_request_answered : forall dbg now nonce B mg n,
+  passes_filters B (mkMsg mg (SyncRequest n)) = true ->
+  exists B', handle_message dbg now nonce (mkMsg mg (SyncRequest n)) B = Ok B' /\
+    u_send_queue B' = u_send_queue B ++ [mkMsg (u_magic B) (SyncReply n)] /\
+    u_state B' = u_state B /\ u_magic B' = u_magic B /\ u_remote_magic B' = u_remote_magic B.
+Proof.
+  intros dbg now nonce B mg n Hp. rewrite eps_handle_unfold, Hp. cbn [negb m_body]. cbv zeta.
+  eexists. split; [reflexivity|].
+  pose proof (eps_touch_fields now B) as T. unfold eps_only_touched in T.
+  destruct T as (T1&T2&T3&T4&T5&T6&T7&T8&T9&T10&T11&T12&T13&T14&T15&_). fsimpl. rewrite T3, T14. auto.
+Qed.
+
+(* a SyncRequest is accepted by every endpoint that is not shut down and does not know another magic *)
+Lemma epl_sync_request_passes : forall B mg n,
+  u_state B <> PShutdown -> (u_remote_magic B = 0 \/ u_remote_magic B = mg) ->
+  passes_filters B (mkMsg mg (SyncRequest n)) = true.
+Proof.
+  intros B mg n Hs Hm. unfold passes_filters. cbn [m_magic m_body is_handshake negb]. rewrite andb_false_r.
+  assert (pstate_eqb (u_state B) PShutdown = false) as -> by (destruct (u_state B); try reflexivity; congruence).
+  destruct Hm as [-> | ->]; [reflexivity|]. rewrite Z.eqb_refl. cbn [negb]. rewrite andb_false_r. reflexivity.
+Qed.
+
+(* a reply to an outstanding request is a matched round trip: one fewer remaining, a fresh request goes out, and
+   the last one makes the endpoint Running with the replier's magic *)
+Lemma epl_sync_reply_matched : forall dbg now nonce A mg n,
+  u_state A = PSynchronizing -> u_remote_magic A = 0 -> zmem n (u_sync_requests A) = true ->
+  1 <= u_sync_remaining A <= NUM_SYNC_PACKETS ->
+  exists A', handle_message dbg now nonce (mkMsg mg (SyncReply n)) A = Ok A' /\
+    match_of A (OMessage now nonce (mkMsg mg (SyncReply n))) = [(n, mg)] /\
+    u_sync_remaining A' = u_sync_remaining A - 1 /\ u_magic A' = u_magic A /\
+    ((1 < u_sync_remaining A /\ u_state A' = PSynchronizing /\ u_remote_magic A' = 0 /\
+      zmem nonce (u_sync_requests A') = true /\
+      In (mkMsg (u_magic A) (SyncRequest nonce)) (u_send_queue A')) \/
+     (u_sync_remaining A = 1 /\ u_state A' = PRunning /\ u_remote_magic A' = mg)).
+Proof.
+  intros dbg now nonce A mg n Hs Hm Hz Hr.
+  assert (Hp : passes_filters A (mkMsg mg (SyncReply n)) = true).
+  { unfold passes_filters. rewrite Hs, Hm. reflexivity. }
+  rewrite eps_handle_unfold, Hp. cbn [negb m_body m_magic]. cbv zeta.
+  pose proof (eps_touch_fields now A) as T. unfold eps_only_touched in T.
+  destruct T as (T1&T2&T3&T4&T5&T6&T7&T8&T9&T10&T11&T12&T13&T14&T15&_).
+  unfold on_sync_reply. rewrite T4, T6, Hs, Hz. cbn [pstate_eqb negb]. fsimpl. rewrite T5.
+  assert ((u_sync_remaining A <=? 0) = false) as -> by lia. cbn [andb].
+  assert (Em : (u_sync_remaining A - 1) mod 4294967296 = u_sync_remaining A - 1)
+    by (apply Z.mod_small; unfold NUM_SYNC_PACKETS in *; lia).
+  rewrite Em.
+  assert (Hmo : match_of A (OMessage now nonce (mkMsg mg (SyncReply n))) = [(n, mg)]).
+  { unfold match_of. cbn [m_body m_magic]. rewrite Hp, Hs, Hz. reflexivity. }
+  destruct (0 <? u_sync_remaining A - 1) eqn:Epos.
+  - assert ((NUM_SYNC_PACKETS <? u_sync_remaining A - 1) = false) as -> by lia. cbn [andb].
+    eexists. split; [reflexivity|]. split; [exact Hmo|]. fsimpl. split; [reflexivity|]. split; [exact T14|].
+    left. split; [lia|]. split; [rewrite T4; exact Hs|]. split; [rewrite T15; exact Hm|]. split.
+    + rewrite zmem_zinsert, Z.eqb_refl. reflexivity.
+    + rewrite T14. apply in_app_iff. right. left. reflexivity.
+  - eexists. split; [reflexivity|]. split; [exact Hmo|]. fsimpl. split; [reflexivity|]. split; [exact T14|].
+    right. split; [lia|]. auto.
+Qed.
+
+(* the retry: a poll more than SYNC_RETRY_INTERVAL after the last request sends a fresh one *)
+Lemma epl_sync_retry : forall now nonce cs A,
+  u_state A = PSynchronizing -> u_last_sync_request_time A + SYNC_RETRY_INTERVAL < now ->
+  exists out A', poll now nonce cs A = Ok (out, A') /\
+    u_state A' = PSynchronizing /\ u_sync_remaining A' = u_sync_remaining A /\ u_remote_magic A' = u_remote_magic A /\
+    u_magic A' = u_magic A /\ zmem nonce (u_sync_requests A') = true /\
+    In (mkMsg (u_magic A) (SyncRequest nonce)) (u_send_queue A').
+Proof.
+  intros now nonce cs A Hs Hdue. unfold poll, poll_gen. cbv zeta. rewrite Hs.
+  assert ((u_last_sync_request_time A + SYNC_RETRY_INTERVAL <? now) = true) as -> by lia.
+  eexists. eexists. split; [reflexivity|]. fsimpl. repeat (split; [first [assumption|reflexivity]|]).
+  split; [rewrite zmem_zinsert, Z.eqb_refl; reflexivity|]. apply in_app_iff. right. left. reflexivity.
+Qed.
+
+(* one fault-free round trip: A's outstanding request n reaches B, B's reply reaches A *)
+Definition epl_round_trip (dbg : bool) (t fresh n : Z) (A B : ep) : res (ep * ep) :=
+  match handle_message dbg t 0 (mkMsg (u_magic A) (SyncRequest n)) B with
+  | Ok B' =>
+    match handle_message dbg t fresh (mkMsg (u_magic B) (SyncReply n)) A with
+    | Ok A' => Ok (A', B')
+    | Err => Err
+    | Panic => Panic
+    end
+  | Err => Err
+  | Panic => Panic
+  end.
+
+(* B answers A's handshake *)
+Definition epl_answers (A B : ep) : Prop :=
+  u_state B <> PShutdown /\ (u_remote_magic B = 0 \/ u_remote_magic B = u_magic A).
+
+Theorem epl_round_trip_progress : forall dbg t fresh n A B,
+  u_state A = PSynchronizing -> u_remote_magic A = 0 -> zmem n (u_sync_requests A) = true ->
+  1 <= u_sync_remaining A <= NUM_SYNC_PACKETS -> epl_answers A B ->
+  exists A' B', epl_round_trip dbg t fresh n A B = Ok (A', B') /\
+    In (mkMsg (u_magic B) (SyncReply n)) (u_send_queue B') /\
+    match_of A (OMessage t fresh (mkMsg (u_magic B) (SyncReply n))) = [(n, u_magic B)] /\
+    u_sync_remaining A' = u_sync_remaining A - 1 /\ u_magic A' = u_magic A /\ u_magic B' = u_magic B /\
+    epl_answers A' B' /\
+    ((1 < u_sync_remaining A /\ u_state A' = PSynchronizing /\ u_remote_magic A' = 0 /\
+      zmem fresh (u_sync_requests A') = true) \/
+     (u_sync_remaining A = 1 /\ u_state A' = PRunning /\ u_remote_magic A' = u_magic B)).
+Proof.
+  intros dbg t fresh n A B Hs Hm Hz Hr (Hb1 & Hb2). unfold epl_round_trip.
+  destruct (epl_sync_request_answered dbg t 0 B (u_magic A) n (epl_sync_request_passes B _ n Hb1 Hb2))
+    as (B' & -> & Q & S1 & M1 & RM1).
+  destruct (epl_sync_reply_matched dbg t fresh A (u_magic B) n Hs Hm Hz Hr) as (A' & -> & Mo & Rem & Mg & Hcase).
+  exists A', B'. split; [reflexivity|]. split; [rewrite Q; apply in_app_iff; right; left; reflexivity|].
+  split; [exact Mo|]. split; [exact Rem|]. split; [exact Mg|]. split; [exact M1|].
+  split; [unfold epl_answers; rewrite S1, RM1, Mg; auto|].
+  destruct Hcase as [(C1 & C2 & C3 & C4 & _)|C]; [left; auto|right; exact C].
+Qed.
+
+(* hence: as many fault-free round trips as remain reach Running *)
+Fixpoint epl_round_trips (dbg : bool) (t : Z) (n : Z) (fresh : list Z) (A B : ep) : res (ep * ep) :=
+  match fresh with
+  | [] => Ok (A, B)
+  | f :: r =>
+    match epl_round_trip dbg t f n A B with
+    | Ok (A', B') => epl_round_trips dbg t f r A' B'
+    | Err => Err
+    | Panic => Panic
+    end
+  end.
+
+Theorem epl_handshake_completes : forall dbg t fresh n A B,
+  u_state A = PSynchronizing -> u_remote_magic A = 0 -> zmem n (u_sync_requests A) = true ->
+  1 <= u_sync_remaining A <= NUM_SYNC_PACKETS -> epl_answers A B ->
+  Z.of_nat (length fresh) = u_sync_remaining A ->
+  exists A' B', epl_round_trips dbg t n fresh A B = Ok (A', B') /\
+    u_state A' = PRunning /\ u_remote_magic A' = u_magic B /\ u_sync_remaining A' = 0.
+Proof.
+  intros dbg t fresh. induction fresh as [|f r IH]; intros n A B Hs Hm Hz Hr Hb Hl; [cbn [length] in Hl; lia|].
+  cbn [epl_round_trips].
+  destruct (epl_round_trip_progress dbg t f n A B Hs Hm Hz Hr Hb) as (A' & B' & -> & _ & _ & Rem & MgA & MgB & Hb' & Hcase).
+  destruct Hcase as [(C1 & C2 & C3 & C4)|(C1 & C2 & C3)].
+  - destruct (IH f A' B' C2 C3 C4) as (A2 & B2 & E & X1 & X2 & X3); [lia|exact Hb'|cbn [length] in Hl; lia|].
+    exists A2, B2. split; [exact E|]. split; [exact X1|]. split; [congruence|exact X3].
+  - assert (r = []) by (destruct r; [reflexivity|cbn [length] in Hl; lia]). subst r. cbn [epl_round_trips].
+    exists A', B'. split; [reflexivity|]. split; [exact C2|]. split; [exact C3|lia].
+Qed.
+
+(* the count of matched round trips (EndpointSpec.matched) *)
+Lemma epl_matches_app : forall dbg a b s s1 e1,
+  run dbg s a = Ok (s1, e1) -> matches dbg s (a ++ b) = matches dbg s a ++ matches dbg s1 b.
+Proof.
+  induction a as [|o a IH]; intros b s s1 e1 H; cbn [app matches].
+  - inversion H; subst. reflexivity.
+  - apply eps_run_cons in H. destruct H as (s2 & e2 & e3 & H1 & H2 & _). rewrite H1.
+    rewrite (IH b _ _ _ H2), app_assoc. reflexivity.
+Qed.
+
+(* never decreases, whatever else arrives: stray, duplicate and foreign replies add nothing and remove nothing *)
+Lemma epl_matched_monotone : forall dbg a b s, matched dbg s a <= matched dbg s (a ++ b).
+Proof.
+  intros dbg a b s. unfold matched.
+  assert (H : exists x, matches dbg s (a ++ b) = matches dbg s a ++ x).
+  { revert s. induction a as [|o a IH]; intro s; cbn [app matches]; [eexists; reflexivity|].
+    destruct (step dbg o s) as [[s1 e1]| |].
+    - destruct (IH s1) as (x & ->). exists x. rewrite app_assoc. reflexivity.
+    - exists []. reflexivity.
+    - exists []. reflexivity. }
+  destruct H as (x & ->). rewrite app_length. lia.
+Qed.
+
+(* in every reachable Synchronizing state: k = NUM_SYNC_PACKETS - remaining round trips matched so far, the
+   peer's magic still unknown; the reply of a fault-free round trip makes it k + 1 *)
+Lemma epl_matched_synchronizing : forall now0 magic handles np lp mp timeout notify fps desync dbg ops A evs,
+  let s0 := ep_new now0 magic handles np lp mp timeout notify fps desync in
+  run dbg s0 ops = Ok (A, evs) -> u_state A = PSynchronizing ->
+  matched dbg s0 ops = NUM_SYNC_PACKETS - u_sync_remaining A /\
+  1 <= u_sync_remaining A <= NUM_SYNC_PACKETS /\ u_remote_magic A = 0 /\
+  forall t fresh mg n A', zmem n (u_sync_requests A) = true ->
+    handle_message dbg t fresh (mkMsg mg (SyncReply n)) A = Ok A' ->
+    matched dbg s0 (ops ++ [OMessage t fresh (mkMsg mg (SyncReply n))]) = matched dbg s0 ops + 1.
+Proof.
+  intros now0 magic handles np lp mp timeout notify fps desync dbg ops A evs s0 H Hs.
+  pose proof (reach_inv1 now0 magic handles np lp mp timeout notify fps desync dbg ops A evs H) as (_ & (HA & HB & HC & HD) & Hst).
+  unfold st_facts in Hst. cbv zeta in Hst. rewrite Hs in Hst. destruct Hst as (_ & M & R & _).
+  fold s0 in M, HC. unfold matched.
+  assert (Hm0 : u_remote_magic A = 0) by (apply HC; lia).
+  split; [exact M|]. split; [exact R|]. split; [exact Hm0|].
+  intros t fresh mg n A' Hz HA'. rewrite (epl_matches_app dbg ops _ s0 A evs H). cbn [matches].
+  assert (match_of A (OMessage t fresh (mkMsg mg (SyncReply n))) = [(n, mg)]) as ->.
+  { unfold match_of. cbn [m_body m_magic]. unfold passes_filters. rewrite Hs, Hm0, Hz. reflexivity. }
+  rewrite !app_length. cbn [length app].
+  destruct (step dbg _ A) as [[? ?]| |]; cbn [length app]; lia.
 Qed.
